@@ -11,6 +11,6 @@ import (
 
 var Reader io.Reader = rand.Reader
 
-func Read(b []byte) (int, error)                     { return rand.Read(b) }
+func Read(b []byte) (int, error)                      { return rand.Read(b) }
 func Int(r io.Reader, max *big.Int) (*big.Int, error) { return rand.Int(r, max) }
 func Prime(r io.Reader, bits int) (*big.Int, error)   { return rand.Prime(r, bits) }
